@@ -52,9 +52,9 @@ CHECKS = {
     ),
     "C08": (
         "exploration",
-        "null-map workload (whole, uncut, unpainted or all-painted scaffolds at every texel size with Pretext's end rounding, sub-texel scaffolds present/absent) with identity + zero-statistics oracle",
+        "null-map workload (whole, uncut, unpainted or all-painted scaffolds at every texel size with Pretext's end rounding, sub-texel scaffolds present/absent, inputs with leading/trailing gaps and haplotype-prefixed names) with identity + zero-statistics oracle",
         "Each generated null map must give exactly one (primary) assembly with the input scaffolds by name and row-for-row, zero cuts/breaks/joins; painted variant: same row lists, names prefix+rank by non-increasing sequence length.",
-        "Last-contig precondition applied as > ceil(t)+1 bp; order compared by name.",
+        "Last-contig precondition applied as > ceil(t)+1 bp; order compared by name; scaffold-terminal input gaps are not expected in the output (C07).",
         "3-C08",
     ),
     "C09": (
@@ -143,9 +143,9 @@ CHECKS = {
     ),
     "C20": (
         "exploration",
-        "contract (never raises, alternating str/int) on the real Assembly.name_natural_key for every key computed; permutation, numeric, nematode-numeral, unloc and rank laws on scaffolds_sorted_by_name / smart_sort_scaffolds over seeded name sets",
+        "contract (never raises, alternating str/int) on the real Assembly.name_natural_key for every key computed; permutation, numeric, nematode-numeral, unloc and rank laws on scaffolds_sorted_by_name / smart_sort_scaffolds over seeded name sets; CLI leg: monitor on pretext_to_asm.name_assemblies snapshots (rank, name) of every assembly handed to the writer and the object order of every written AGP file must be a concatenation of those sorted assemblies",
         "Seeded name sets (G-names incl. I/V/X runs, leading zeros, unloc suffixes) are sorted from several permutations; totality, permutation-invariance of the key sequence and the documented orderings are asserted on each.",
-        "ASCII names < 60 chars; unloc law for chromosome names none of which is a digit-extended prefix of another.",
+        "ASCII names < 60 chars; unloc law for chromosome names none of which is a digit-extended prefix of another; an all_haplotigs file is several sorted assemblies one after another.",
         "3-C20",
     ),
 }
